@@ -176,7 +176,13 @@ func (c *ChangesCursor) Next() error {
 			return fmt.Errorf("diff: %w", err)
 		}
 		if de.NewValue != nil {
-			c.currentRow = de.NewValue.(*v1proto.Row)
+			row, _ := de.NewValue.(*v1proto.Row)
+			if row == nil || row.Deleted {
+				// deleted in the 'to' version: not one of its rows (it is
+				// reported when from and to are swapped)
+				continue
+			}
+			c.currentRow = row
 			c.currentKey = de.Key.(*s3db.Key)
 			return nil
 		}
